@@ -109,6 +109,9 @@ func runCmdWorld(w *simrt.World, orig func()) {
 		}
 		if len(sess.Prelude) > 0 {
 			simrt.Boundary("main")
+			// what the observed invocation prints is what follows this mark
+			fmt.Fprint(os.Stdout, "\x00verif-session-boundary\x00\n")
+			fmt.Fprint(os.Stderr, "\x00verif-session-boundary\x00\n")
 		}
 		if sess.SdkWd != "" {
 			// what cmd/thriftgo's main does with the error of the same call: message, exit 2
